@@ -129,7 +129,7 @@ class Ctx:
         common.write_evidence(self.prop, self.tier, self.seed, self.cov, wall, nviol, self.assumptions)
         for l in lines:
             print(l)
-        print(f"{self.prop} tier={self.tier} seed={self.seed} obligations={self.cov['obligations']} "
-              f"discharged={self.cov['discharged']} evaluations={self.cov['evaluations']} "
+        print(f"{self.prop} tier={self.tier} seed={self.seed} obligations={self.cov.get('obligations', self.cov.get('proof_obligations_open'))} "
+              f"discharged={self.cov.get('discharged', 0)} evaluations={self.cov['evaluations']} "
               f"violations={nviol} wall={wall:.1f}s")
         return 1 if nviol else 0
